@@ -327,6 +327,37 @@ func runC13(c *core.Ctx) {
 		}
 		hashTrip(t, "base")
 		hashTrip(DeepCopy(t), "deep-copy")
+		// object identity inside one value: the same data with the departure event aliasing the arrival event (one pointer,
+		// or two structs sharing their field pointers), with two updates sharing one event, with strings sharing storage
+		for k := range t.StopTimeUpdates {
+			if arr := t.StopTimeUpdates[k].Arrival; arr != nil {
+				al := DeepCopy(t)
+				al.StopTimeUpdates[k].Departure = al.StopTimeUpdates[k].Arrival
+				hashTrip(al, "alias:departure-is-the-arrival-pointer")
+				sep := DeepCopy(t)
+				cp := *sep.StopTimeUpdates[k].Arrival
+				if cp.Time != nil {
+					x := *cp.Time
+					cp.Time = &x
+				}
+				if cp.Delay != nil {
+					x := *cp.Delay
+					cp.Delay = &x
+				}
+				if cp.Uncertainty != nil {
+					x := *cp.Uncertainty
+					cp.Uncertainty = &x
+				}
+				sep.StopTimeUpdates[k].Departure = &cp
+				hashTrip(sep, "alias:departure-is-a-separate-equal-event")
+				sh := DeepCopy(t)
+				shallow := *sh.StopTimeUpdates[k].Arrival
+				sh.StopTimeUpdates[k].Departure = &shallow
+				hashTrip(sh, "alias:departure-shares-the-arrival's-field-pointers")
+				c.Feature("aliasing-variants")
+				break
+			}
+		}
 		ms, infos := mutateAll(t, zones[(i+1)%len(zones)], skipTrip)
 		for j, m := range ms {
 			hashTrip(m, infos[j].Kind+"@"+infos[j].Path)
